@@ -301,6 +301,44 @@ func init() {
 					roundTrip(c, "deep", msg, rm)
 					c.Case(0, true, "deep")
 				}})
+			// the round trip must not depend on what the decoder was given before: every tree of a small scope is
+			// round-tripped right after the decoder has refused (or accepted) one of a set of damaged messages, each
+			// of which stops it in a different state (inside nested lists, inside a leaf, in a recovered panic)
+			damaged := [][]byte{
+				hdr(1, 1, []byte{0x01, 0x03, 0xA5, 0x01, 0x01, 0x01, 0x02, 0xA5, 0x01, 0x02}),       // inner list announces 2, message holds 1
+				hdr(1, 1, []byte{0x01, 0x02, 0x01, 0x02, 0xA5, 0x01, 0x05, 0xA9, 0x02, 0x00}),       // leaf truncated inside two lists
+				hdr(1, 1, []byte{0x01, 0x02, 0xA5, 0x01, 0x07, 0x01, 0x01, 0x41, 0x02, 'a', 0xC3}),  // non-ASCII byte (constructor panic) inside lists
+				hdr(1, 1, []byte{0x01, 0x02, 0xA5, 0x01, 0x07, 0x01, 0x01, 0xA4}),                   // zero length bytes inside lists
+				hdr(1, 1, []byte{0x01, 0x01, 0x01, 0x01, 0xA5, 0x01, 0x07, 0x00}),                   // trailing byte after a nested item
+				hdr(0x81, 2, []byte{0x01, 0x01, 0x01, 0x01, 0xA5, 0x01, 0x07}),                      // W-bit on an even function, nested body
+				hdr(1, 1, []byte{0x01, 0x02, 0xA5, 0x01, 0x07, 0x91, 0x04, 0x7F, 0xC0, 0x00, 0x00}), // NaN after a sibling
+				hdr(1, 1, []byte{0x01, 0x02, 0x01, 0x01, 0x0D, 0x01, 0x00}),                         // undefined format code inside lists
+				hdr(1, 1, []byte{0x01, 0xFF, 0x01, 0xFF, 0x01, 0xFF}),                               // lists announcing 255 children, nothing there
+				{0, 0, 0, 12, 0, 1, 1, 1, 0, 0, 0, 0, 0, 1, 0x01},                                   // cut inside the first item header
+				hdr(1, 1, []byte{0x01, 0x02, 0x01, 0x01, 0xA5, 0x01, 0x07, 0x41, 0x02, 'o', 'k'}),   // a valid nested message
+			}
+			as := NewTreeScope(smallLeafAlphabet(), 5, 4, 2)
+			sp = append(sp, h.Space{Name: "round-trip-after-a-damaged-message", Count: as.Count() * uint64(len(damaged)),
+				Describe: func(i uint64) interface{} {
+					return fmt.Sprintf("hsms.Parse(%x) first, then the round trip of %s", damaged[i%uint64(len(damaged))], ref.Print(as.Nth(i/uint64(len(damaged)))))
+				},
+				Run: func(c *h.Ctx, i uint64) {
+					rm := &ref.Msg{Stream: 1, Function: 1, W: 0, Dir: "H<->E", Session: 9, System: [4]byte{1, 2, 3, 4}, Item: as.Nth(i / uint64(len(damaged)))}
+					msg, e := buildRoute(0, rm)
+					if msg == nil {
+						c.Fail("route-failed:"+rootClass(rm), ref.PrintMsg(rm), e)
+						c.Case(0, true, "route-failed")
+						return
+					}
+					pre := append([]byte{}, damaged[i%uint64(len(damaged))]...)
+					_, _, pan := parseSafe(pre)
+					c.Ops(1)
+					if pan != "" {
+						c.Fail("panic-escaped:damaged", fmt.Sprintf("hsms.Parse(%x)", pre), pan)
+					}
+					roundTrip(c, fmt.Sprintf("after hsms.Parse(%x)", pre), msg, rm)
+					c.Case(0, true, "after-damaged")
+				}})
 			// size boundaries, all 14 formats, top-level and nested
 			type sz struct {
 				k      ref.Kind
